@@ -96,35 +96,37 @@ pub fn check_case(c: &Case) -> PResult {
     let want = Want { tt: c.item.val().tt(), envelope: matches!(c.item, Item::Msg { .. }) };
     for pk in PKS {
         let proto = pk.ref_proto();
-        // A) pilota -> reference
-        let out = match catch(|| write_items(pk, BKind::BytesMut, std::slice::from_ref(&c.item), c.flavor)) {
-            Err(p) => return Err(Fail::new(&format!("write-panic-{:?}", pk), format!("{:?}: writer panicked: {}", pk, p))),
-            Ok(Err(e)) => return Err(Fail::new(&format!("write-error-{:?}", pk), format!("{:?}: {}", pk, e))),
-            Ok(Ok(o)) => o,
-        };
-        let mut d = Dec::new(proto, &out.bytes);
-        if let Item::Msg { name, mtype, seq, .. } = &c.item {
-            match d.message_begin() {
-                Ok((n, t, s)) => ensure!(
-                    n == name.as_bytes() && t == *mtype && s == *seq,
-                    &format!("envelope-out-{:?}", pk),
-                    "{:?}: reference decoder read envelope ({:?},{},{}) from pilota's bytes {}, expected ({:?},{},{})",
-                    pk, String::from_utf8_lossy(&n), t, s, vcore::tval::hex(&out.bytes[..out.bytes.len().min(48)]), name, mtype, seq
-                ),
-                Err(e) => return Err(Fail::new(&format!("envelope-out-{:?}", pk), format!("{:?}: reference decoder rejects pilota's envelope: {} bytes={}", pk, e, vcore::tval::hex(&out.bytes[..out.bytes.len().min(48)])))),
+        // A) pilota -> reference, through every output buffer kind (each has a writer of its own)
+        for bk in ALL_BK {
+            let out = match catch(|| write_items(pk, bk, std::slice::from_ref(&c.item), c.flavor)) {
+                Err(p) => return Err(Fail::new(&format!("write-panic-{:?}", pk), format!("{:?}: writer panicked: {}", pk, p))),
+                Ok(Err(e)) => return Err(Fail::new(&format!("write-error-{:?}", pk), format!("{:?}: {}", pk, e))),
+                Ok(Ok(o)) => o,
+            };
+            let mut d = Dec::new(proto, &out.bytes);
+            if let Item::Msg { name, mtype, seq, .. } = &c.item {
+                match d.message_begin() {
+                    Ok((n, t, s)) => ensure!(
+                        n == name.as_bytes() && t == *mtype && s == *seq,
+                        &format!("envelope-out-{:?}", pk),
+                        "{:?}: reference decoder read envelope ({:?},{},{}) from pilota's bytes {}, expected ({:?},{},{})",
+                        pk, String::from_utf8_lossy(&n), t, s, vcore::tval::hex(&out.bytes[..out.bytes.len().min(48)]), name, mtype, seq
+                    ),
+                    Err(e) => return Err(Fail::new(&format!("envelope-out-{:?}", pk), format!("{:?}: reference decoder rejects pilota's envelope: {} bytes={}", pk, e, vcore::tval::hex(&out.bytes[..out.bytes.len().min(48)])))),
+                }
             }
-        }
-        match d.value(want.tt) {
-            Ok(v) => {
-                ensure!(
-                    v.normalized() == c.item.val().normalized(),
-                    &format!("ref-decodes-different-{:?}", pk),
-                    "{:?}: reference decoder recovers a different value from pilota's bytes\n wrote {:?}\n ref   {:?}",
-                    pk, c.item.val(), v
-                );
-                ensure!(d.pos == out.bytes.len(), &format!("ref-trailing-{:?}", pk), "{:?}: pilota wrote {} bytes, the value occupies {}", pk, out.bytes.len(), d.pos);
+            match d.value(want.tt) {
+                Ok(v) => {
+                    ensure!(
+                        v.normalized() == c.item.val().normalized(),
+                        &format!("ref-decodes-different-{:?}", pk),
+                        "{:?}: reference decoder recovers a different value from pilota's bytes\n wrote {:?}\n ref   {:?}",
+                        pk, c.item.val(), v
+                    );
+                    ensure!(d.pos == out.bytes.len(), &format!("ref-trailing-{:?}", pk), "{:?}: pilota wrote {} bytes, the value occupies {}", pk, out.bytes.len(), d.pos);
+                }
+                Err(e) => return Err(Fail::new(&format!("ref-rejects-{:?}", pk), format!("{:?}: reference decoder rejects pilota's bytes: {}\n value {:?}\n bytes {}", pk, e, c.item.val(), vcore::tval::hex(&out.bytes[..out.bytes.len().min(64)])))),
             }
-            Err(e) => return Err(Fail::new(&format!("ref-rejects-{:?}", pk), format!("{:?}: reference decoder rejects pilota's bytes: {}\n value {:?}\n bytes {}", pk, e, c.item.val(), vcore::tval::hex(&out.bytes[..out.bytes.len().min(64)])))),
         }
         // B) reference -> pilota, in every spec-legal alternative form
         let variant = Variant { long_field_headers: c.long_headers, binary_true: c.binary_true, bool_elem_code: if c.bool_elem2 { 2 } else { 1 } };
